@@ -184,12 +184,24 @@ def textLt : Text → Text → Bool
   | _ :: _, [] => false
   | a :: as, b :: bs => if a.toNat < b.toNat then true else if b.toNat < a.toNat then false else textLt as bs
 
-def textMin (l : List Text) : Option Text := l.foldl (fun acc x => match acc with
+/-- `int(c)` for a character matched by `\d`: the decimal digits of every script come in runs of ten
+    (`Generated.digitRanges`, read off the interpreter; the values are compared with CPython on every run) -/
+def digitVal (c : Char) : Nat :=
+  match Generated.digitRanges.find? (fun r => decide (r.1.toNat ≤ c.toNat) && decide (c.toNat ≤ r.2.toNat)) with
+  | some r => (c.toNat - r.1.toNat) % 10
+  | none => 0
+
+/-- `int(year)` for a matched `\d{4}` -/
+def yearVal (y : Text) : Nat := y.foldl (fun acc c => acc * 10 + digitVal c) 0
+
+/-- `min(years, key=int)`: the first of the numerically smallest -/
+def yearMin (l : List Text) : Option Text := l.foldl (fun acc x => match acc with
   | none => some x
-  | some m => if textLt x m then some x else some m) none
-def textMax (l : List Text) : Option Text := l.foldl (fun acc x => match acc with
+  | some m => if yearVal x < yearVal m then some x else some m) none
+/-- `max(years, key=int)`: the first of the numerically largest -/
+def yearMax (l : List Text) : Option Text := l.foldl (fun acc x => match acc with
   | none => some x
-  | some m => if textLt m x then some x else some m) none
+  | some m => if yearVal m < yearVal x then some x else some m) none
 
 def dedup (l : List Text) : List Text := l.foldl (fun acc x => if acc.contains x then acc else acc ++ [x]) []
 
@@ -201,8 +213,8 @@ def mostCommon (items : List Text) : Option Text :=
 
 /-- the year text of a merged line: nothing, the single year, or `min - max` -/
 def mergedYear (years : List Text) : Option Text :=
-  match textMin years, textMax years with
-  | some lo, some hi => if lo == hi then some lo else some (lo ++ " - ".toList ++ hi)
+  match yearMin years, yearMax years with
+  | some lo, some hi => if yearVal lo == yearVal hi then some lo else some (lo ++ " - ".toList ++ hi)
   | _, _ => none
 
 /-- what `merge_copyright_lines` knows about one input line: statement, years, prefix -/
